@@ -4,8 +4,10 @@
     evolving tree; no codemod's outcome depends on state left by, or analysis precomputed for, another one.
     Model: Model/Run.v.  The batch run shares ONE execution context: aggregates keyed by codemod id, package stores
     mutated in memory, cached file lists, and a semgrep prefilter computed once on the INITIAL tree.
-    - [C09_batch_eq_chain]: batch = chain (final file system syntactically equal; row i of the batch report = the row of
-      the i-th single run) under the explicit hypotheses
+    - [C09_batch_eq_chain_conditional]: a CONDITIONAL lemma, not the property: batch = chain (final file system
+      syntactically equal; row i of the batch report = the row of the i-th single run) under hypotheses that assume the
+      prefilter and store channels away.  What it does prove unconditionally is that the aggregates are keyed by id and
+      that one context serves a sequence as well as fresh ones once detection and stores agree.  Hypotheses:
         H_prefilter_stable  ([prefilter_stable]: the stale prefilter leads each codemod to the same effective detection
                              as a fresh one taken on the tree it actually sees),
         H_stores_reparse    (a fresh parse of the manifests gives what the in-memory stores became),
@@ -15,10 +17,15 @@
       set: add-requests-timeouts > url-sandbox (finding class kf_stale_prefilter:add-requests-timeouts>url-sandbox).
     - [C09_results_keyed]: with distinct ids the row of a codemod is what its own step recorded; nothing is mixed.
     - [C09_cache_irrelevant]: no run creates or deletes a path, so the cached file lists equal their recomputation.
+    - [C09_prefilter_stable_from_overlap], [C09_batch_eq_chain_overlap_partial]: H_prefilter_stable is DERIVED from a
+      decidable condition on the ORDERED pairs of the sequence ([no_stale_pair] over the rule-overlap table
+      [stale_pairs_known], one pair on the real codemod set) plus the per-pair semantic contract [create_free] (a rewrite
+      of K1 never creates a match of K2's rule in a file that had none), which the harness measures.  _partial: the
+      contract and H_stores_reparse remain premises.
     Not proved here: that H_stores_reparse follows from the writers' code (DESIGN's C09_store_mutation_equiv). *)
-From CM Require Import Base.Dict Model.Run Spec.RunSpec Proofs.RunFacts Proofs.RunSteps Proofs.C09Facts Proofs.RunTables Generated.Tables.
+From CM Require Import Base.Dict Model.Run Spec.RunSpec Proofs.RunFacts Proofs.RunSteps Proofs.C09Facts Proofs.C09Overlap Proofs.RunTables Generated.Tables.
 
-Theorem C09_batch_eq_chain :
+Theorem C09_batch_eq_chain_conditional :
   forall (tb : run_tables) (tree : Type) parse code T S R diff W fsel (cfg : config) (pstores : fsys -> list store)
          (Ks : list codemod) (fs : fsys),
     all_files cfg <> [] -> NoDup (map cid Ks) ->
@@ -31,7 +38,7 @@ Theorem C09_batch_eq_chain :
       Forall2 (fun K r => exists t, r = Ok t /\ row_of K s' = row_of K t) Ks
               (chain tb tree parse code T S R diff W fsel cfg pstores Ks fs).
 Proof. exact batch_eq_chain. Qed.
-Print Assumptions C09_batch_eq_chain.
+Print Assumptions C09_batch_eq_chain_conditional.
 
 Theorem C09_refuted_without_H :
   forall tb : run_tables,
@@ -76,7 +83,51 @@ Proof.
 Qed.
 Print Assumptions C09_cache_irrelevant.
 
-(** Non-vacuity: the hypotheses of [C09_batch_eq_chain] hold for a concrete two-codemod sequence touching the same
+
+(** ---- H_prefilter_stable from the rule-overlap table (decidable per ordered pair) ---- *)
+Definition stale_pairs_known : list (str * str) :=
+  [([112; 105; 120; 101; 101; 58; 112; 121; 116; 104; 111; 110; 47; 97; 100; 100; 45; 114; 101; 113; 117; 101; 115; 116; 115; 45; 116; 105; 109; 101; 111; 117; 116; 115]%N, [112; 105; 120; 101; 101; 58; 112; 121; 116; 104; 111; 110; 47; 117; 114; 108; 45; 115; 97; 110; 100; 98; 111; 120]%N)].    (* add-requests-timeouts > url-sandbox *)
+
+Theorem C09_prefilter_stable_from_overlap :
+  forall (tb : run_tables) (tree : Type) parse code T S R diff W fsel (cfg : config) (pstores : fsys -> list store)
+         (stale : list (str * str)),
+    (forall K1 K2, pair_listed stale K1 K2 = false -> is_semgrep K2 = true -> create_free tree parse code T S K1 K2) ->
+    scan_all cfg = scope0 cfg ->
+    (forall K, has_guard IfNoChanges (guards_of tb (cpipe K)) = true) ->
+    (forall fs st, In st (pstores fs) -> ~ In (st_path st) (scope0 cfg)) ->
+    forall Ks fs, NoDup (map cid Ks) -> no_stale_pair stale Ks = true ->
+      prefilter_stable tb tree parse code T S R diff W fsel cfg pstores (prefilter_of S cfg Ks fs) Ks fs.
+Proof. exact prefilter_stable_from_overlap. Qed.
+Print Assumptions C09_prefilter_stable_from_overlap.
+
+Theorem C09_batch_eq_chain_overlap_partial :
+  forall (tb : run_tables) (tree : Type) parse code T S R diff W fsel (cfg : config) (pstores : fsys -> list store)
+         (stale : list (str * str)),
+    (forall K1 K2, pair_listed stale K1 K2 = false -> is_semgrep K2 = true -> create_free tree parse code T S K1 K2) ->
+    scan_all cfg = scope0 cfg ->
+    (forall K, has_guard IfNoChanges (guards_of tb (cpipe K)) = true) ->
+    (forall fs st, In st (pstores fs) -> ~ In (st_path st) (scope0 cfg)) ->
+    forall Ks fs,
+      all_files cfg <> [] -> NoDup (map cid Ks) ->
+      (forall K, In K Ks -> tries_present tb (cpipe K) = true) ->
+      stores_reparse tb tree parse code T S R diff W fsel cfg pstores Ks ->
+      no_stale_pair stale Ks = true ->
+      exists s', run tb tree parse code T S R diff W fsel cfg Ks fs (pstores fs) = Ok s' /\
+                 s_fs s' = chain_fs tb tree parse code T S R diff W fsel cfg pstores Ks fs /\
+                 Forall2 (fun K r => exists t, r = Ok t /\ row_of K s' = row_of K t) Ks
+                         (chain tb tree parse code T S R diff W fsel cfg pstores Ks fs).
+Proof. exact batch_eq_chain_overlap. Qed.
+Print Assumptions C09_batch_eq_chain_overlap_partial.
+
+(** the condition is decidable and about the ORDER: url-sandbox before add-requests-timeouts is fine, the converse is listed *)
+Definition k_timeouts : codemod := {| cid := [112; 105; 120; 101; 101; 58; 112; 121; 116; 104; 111; 110; 47; 97; 100; 100; 45; 114; 101; 113; 117; 101; 115; 116; 115; 45; 116; 105; 109; 101; 111; 117; 116; 115]%N; cpipe := PLibcst; cdet := DSemgrep; cbase := FindAndFix; cavail := true |}.
+Definition k_url_sandbox : codemod := {| cid := [112; 105; 120; 101; 101; 58; 112; 121; 116; 104; 111; 110; 47; 117; 114; 108; 45; 115; 97; 110; 100; 98; 111; 120]%N; cpipe := PLibcst; cdet := DSemgrep; cbase := FindAndFix; cavail := true |}.
+Example C09_overlap_decides_by_order :
+  no_stale_pair stale_pairs_known [k_url_sandbox; k_timeouts] = true /\
+  no_stale_pair stale_pairs_known [k_timeouts; k_url_sandbox] = false.
+Proof. vm_compute. split; reflexivity. Qed.
+
+(** Non-vacuity: the hypotheses of [C09_batch_eq_chain_conditional] hold for a concrete two-codemod sequence touching the same
     file one after the other (K2's semgrep rule already matches a flagged file, and K1 creates no new match). *)
 Example C09_example_hyps :
   let fs := [([97%N], [6%N; 6%N]); ([98%N], [1%N])] in
